@@ -113,7 +113,7 @@ func cmdVerify(args []string) {
 		}
 	}
 	gen := time.Since(t0)
-	SolveAll(all, SolveOpts{TimeoutMs: *timeout, Dir: tmp, NoRetry: *noRetry}, runtime.NumCPU())
+	SolveAll(all, SolveOpts{TimeoutMs: *timeout, Dir: tmp, NoRetry: *noRetry}, 2*runtime.NumCPU())
 	bad := 0
 	for _, o := range all {
 		ok := o.Result == "unsat"
